@@ -38,7 +38,7 @@ Definition romberg_coefficient_from (lo : nat) (a b : Qc) (e m j : nat) : Qc :=
   if (j <? lo)%nat then 0 else prodQ (map (coeff_factor a b j e) (seq lo (S m - lo))).
 
 (* SWITCH: first level taking part in RombergSimpsonCoefficients.get_coefficient.  0 = current code. *)
-Definition simpson_min_level : nat := 0.
+Definition simpson_min_level : nat := 1.
 
 (* ExtrapolationVersion: exponent 2 = ROMBERG_DEFAULT, 1 = ROMBERG_LINEAR, 3 = ROMBERG_SIMPSON *)
 Definition Qc3 : Qc := Q2Qc (3 # 1).
